@@ -5,8 +5,8 @@ import (
 	"flag"
 	"fmt"
 	"math"
-	"os"
 	"math/rand"
+	"os"
 	"strings"
 
 	"github.com/herohde/morlock/cmd/bernstein/bernstein"
